@@ -122,6 +122,10 @@ def binop(eng, op, l, r, st, line=0):
             except Exception as e:  # noqa: BLE001
                 yield st, Raise(Exc(type(e), e.args))
             return
+    if isinstance(l, SV) and l.hint is not None and (l.hint, f"__{opn}__") in eng.method_models:
+        # a library value with a modelled operator method (e.g. set difference)
+        yield from eng.method_models[(l.hint, f"__{opn}__")].fn(eng, st, [l, r], {})
+        return
     lsv = l if isinstance(l, SV) else SV(eng.lift(l, st))
     rsv = r if isinstance(r, SV) else SV(eng.lift(r, st))
     for st1, lt in _kind_cases(eng, lsv, st):
